@@ -11,6 +11,16 @@ Definition run_strong (noisy : bool) (p : sparams) : sparams * nat (* trajectori
   let n := if noisy then requested else 1 in
   ({| num_traj := requested; traj_rows := n |}, n).
 
+(* _run_analog with its three back-ends on ONE AnalogSimParams object: the Lindblad back-end is deterministic and runs a single
+   "trajectory" whatever the noise; the request is restored after every run, whichever back-end served it *)
+Inductive solver := TJM | MCWF | Lindblad.
+Definition run_analog (s : solver) (noisy : bool) (p : sparams) : sparams * nat :=
+  let requested := num_traj p in
+  let n := match s with Lindblad => 1 | _ => if noisy then requested else 1 end in
+  ({| num_traj := requested; traj_rows := n |}, n).
+Definition analog_history (h : list (solver * bool)) (p : sparams) : sparams :=
+  fold_left (fun q sb => fst (run_analog (fst sb) (snd sb) q)) h p.
+
 (* ---- StrongSimParams with sample_layers: num_mid_measurements (constructor argument, rewritten by every run) ---- *)
 Record lparams := { sample_layers : bool; num_mid : nat }.
 (* _run_strong_sim: with sample_layers the labelled barriers of THIS circuit are counted and stored; the result arrays get
